@@ -18,7 +18,7 @@ from ..callgraph import CallGraph, effects_of
 from ..core import Ctx, PropSpec, Unsupported
 from ..extract import where
 from ..interp import ExcVal, Obj, Raised
-from ..models import make_interp, raw_packet
+from ..models import make_interp, model_definition, raw_packet
 
 DEF = "xtce/definitions.py"
 GEN = f"{DEF}::XtcePacketDefinition.packet_generator"
@@ -228,7 +228,7 @@ def run_stream(prog, fi, stream, opts):
 
     it = make_interp(prog, {"XtcePacketDefinition.parse_ccsds_packet": parse_stub,
                             "space_packet_parser.packets.ccsds_generator": lambda b, **k: b}, max_steps=400000)
-    selfv = Obj("XtcePacketDefinition", root_container_name="ROOT")
+    selfv = model_definition(it, "ROOT")
     ys = it.call(fi, [selfv, pkts], dict(opts))
     out = []
     for y in ys:
